@@ -3,8 +3,9 @@
    One label = one atomic step of one thread between two synchronisation points of the code:
      API thread     Start: clear `stopping`; open listeners; spawn the accept loops; return
                     Stop:  set `stopping`; close the listeners; wait for the accept loops; close the registered
-                           connections and the tracked sockets; wait for the connection goroutines; return
-                    (the liveConns set only serves Stop's termination and is not a state component here)
+                           connections (snapshot of the registry); close the tracked sockets (snapshot of liveConns =
+                           the sockets of the connection goroutines that have not finished); wait for the connection
+                           goroutines; return
      accept loop    Accept succeeds (trackConn: refuse when stopping, else track + spawn) / Accept fails (exit, Done)
      connection     (TLS) handshake fails -> close, untrack, Done | admitted -> AddConn | certificate rejected -> close,
                     untrack, Done | loop ends (client gone, QUIT, error, socket closed by Stop) -> RemoveConn, Close,
@@ -19,7 +20,8 @@ Record aloop := { al_lis : nat; al_tls : bool; al_done : bool }.
 
 Inductive apc :=
 | PStopped | PStart1 (* stopping cleared *) | PStart2 (* listeners open *) | PStart3 (* plain loop spawned *) | PRunning
-| PStop1 (* stopping set *) | PStop2 (* listeners closed *) | PStop3 (* accept loops gone *) | PStop4 (* registered and tracked sockets closed *).
+| PStop1 (* stopping set *) | PStop2 (* listeners closed *) | PStop3 (* accept loops gone *) | PStop3r (* registered connections closed, registry emptied *)
+| PStop4 (* tracked sockets closed *).
 
 Record sys := {
   open_lis : list nat;                (* OS listeners that are open *)
@@ -27,6 +29,7 @@ Record sys := {
   fld_tls : option nat;               (* server.tlsPortListener *)
   stopping : bool;
   registry : list nat;                (* ConnManager *)
+  live : list nat;                    (* liveConns: ids of the accepted sockets Stop can still close (tracked until their goroutine returns) *)
   loops : list aloop;
   conns : list cthread;
   accept_wg : nat;
@@ -37,12 +40,12 @@ Record sys := {
 }.
 
 Definition init (p t : bool) : sys :=
-  {| open_lis := []; fld_plain := None; fld_tls := None; stopping := false; registry := []; loops := []; conns := [];
+  {| open_lis := []; fld_plain := None; fld_tls := None; stopping := false; registry := []; live := []; loops := []; conns := [];
      accept_wg := 0; conn_wg := 0; next_id := 0; pc := PStopped; cfg_plain := p; cfg_tls := t |}.
 
 Inductive label :=
 | LStartBegin | LStartOpen | LStartSpawnPlain | LStartSpawnTLS
-| LStopBegin | LStopCloseLis | LStopWaitAccept | LStopCloseConns | LStopWaitConns
+| LStopBegin | LStopCloseLis | LStopWaitAccept | LStopCloseReg | LStopCloseConns | LStopWaitConns
 | LAcceptOk (lis : nat) | LAcceptFail (lis : nat)
 | LHandshakeFail (id : nat) | LAdmit (id : nat) | LReject (id : nat) | LFinish (id : nat).
 
@@ -55,6 +58,8 @@ Definition find_conn (id : nat) (l : list cthread) : option cthread := find (fun
 Definition finish_conn (c : cthread) : cthread := {| ct_id := ct_id c; ct_tls := ct_tls c; ct_st := CDone; ct_open := false |}.
 Definition register_conn (c : cthread) : cthread := {| ct_id := ct_id c; ct_tls := ct_tls c; ct_st := CRegistered; ct_open := ct_open c |}.
 Definition close_conn (c : cthread) : cthread := {| ct_id := ct_id c; ct_tls := ct_tls c; ct_st := ct_st c; ct_open := false |}.
+(* ConnManager.Close on its snapshot of the registry: the registered connections are closed *)
+Definition close_reg (reg : list nat) (c : cthread) : cthread := if mem_nat (ct_id c) reg then close_conn c else c.
 
 Definition set_loop_done (lis : nat) (l : list aloop) : list aloop :=
   map (fun a => if Nat.eqb (al_lis a) lis then {| al_lis := al_lis a; al_tls := al_tls a; al_done := true |} else a) l.
@@ -69,7 +74,7 @@ Definition lstep (s : sys) (l : label) : option sys :=
   | LStartBegin =>
     match pc s with
     | PStopped => Some {| open_lis := open_lis s; fld_plain := fld_plain s; fld_tls := fld_tls s; stopping := false; registry := registry s;
-                          loops := loops s; conns := conns s; accept_wg := accept_wg s; conn_wg := conn_wg s; next_id := next_id s; pc := PStart1;
+                          live := live s; loops := loops s; conns := conns s; accept_wg := accept_wg s; conn_wg := conn_wg s; next_id := next_id s; pc := PStart1;
                           cfg_plain := cfg_plain s; cfg_tls := cfg_tls s |}
     | _ => None
     end
@@ -80,7 +85,7 @@ Definition lstep (s : sys) (l : label) : option sys :=
       let lp := if cfg_plain s then Some n else None in
       let lt := if cfg_tls s then Some (S n) else None in
       Some {| open_lis := opt_list lp ++ opt_list lt ++ open_lis s; fld_plain := lp; fld_tls := lt; stopping := stopping s; registry := registry s;
-              loops := loops s; conns := conns s; accept_wg := accept_wg s; conn_wg := conn_wg s; next_id := S (S n); pc := PStart2;
+              live := live s; loops := loops s; conns := conns s; accept_wg := accept_wg s; conn_wg := conn_wg s; next_id := S (S n); pc := PStart2;
               cfg_plain := cfg_plain s; cfg_tls := cfg_tls s |}
     | _ => None
     end
@@ -89,10 +94,10 @@ Definition lstep (s : sys) (l : label) : option sys :=
     | PStart2 =>
       match fld_plain s with
       | Some lis => Some {| open_lis := open_lis s; fld_plain := fld_plain s; fld_tls := fld_tls s; stopping := stopping s; registry := registry s;
-                            loops := {| al_lis := lis; al_tls := false; al_done := false |} :: loops s; conns := conns s; accept_wg := S (accept_wg s);
+                            live := live s; loops := {| al_lis := lis; al_tls := false; al_done := false |} :: loops s; conns := conns s; accept_wg := S (accept_wg s);
                             conn_wg := conn_wg s; next_id := next_id s; pc := PStart3; cfg_plain := cfg_plain s; cfg_tls := cfg_tls s |}
       | None => Some {| open_lis := open_lis s; fld_plain := fld_plain s; fld_tls := fld_tls s; stopping := stopping s; registry := registry s;
-                        loops := loops s; conns := conns s; accept_wg := accept_wg s; conn_wg := conn_wg s; next_id := next_id s; pc := PStart3;
+                        live := live s; loops := loops s; conns := conns s; accept_wg := accept_wg s; conn_wg := conn_wg s; next_id := next_id s; pc := PStart3;
                         cfg_plain := cfg_plain s; cfg_tls := cfg_tls s |}
       end
     | _ => None
@@ -102,10 +107,10 @@ Definition lstep (s : sys) (l : label) : option sys :=
     | PStart3 =>
       match fld_tls s with
       | Some lis => Some {| open_lis := open_lis s; fld_plain := fld_plain s; fld_tls := fld_tls s; stopping := stopping s; registry := registry s;
-                            loops := {| al_lis := lis; al_tls := true; al_done := false |} :: loops s; conns := conns s; accept_wg := S (accept_wg s);
+                            live := live s; loops := {| al_lis := lis; al_tls := true; al_done := false |} :: loops s; conns := conns s; accept_wg := S (accept_wg s);
                             conn_wg := conn_wg s; next_id := next_id s; pc := PRunning; cfg_plain := cfg_plain s; cfg_tls := cfg_tls s |}
       | None => Some {| open_lis := open_lis s; fld_plain := fld_plain s; fld_tls := fld_tls s; stopping := stopping s; registry := registry s;
-                        loops := loops s; conns := conns s; accept_wg := accept_wg s; conn_wg := conn_wg s; next_id := next_id s; pc := PRunning;
+                        live := live s; loops := loops s; conns := conns s; accept_wg := accept_wg s; conn_wg := conn_wg s; next_id := next_id s; pc := PRunning;
                         cfg_plain := cfg_plain s; cfg_tls := cfg_tls s |}
       end
     | _ => None
@@ -113,7 +118,7 @@ Definition lstep (s : sys) (l : label) : option sys :=
   | LStopBegin =>
     match pc s with
     | PRunning => Some {| open_lis := open_lis s; fld_plain := fld_plain s; fld_tls := fld_tls s; stopping := true; registry := registry s;
-                          loops := loops s; conns := conns s; accept_wg := accept_wg s; conn_wg := conn_wg s; next_id := next_id s; pc := PStop1;
+                          live := live s; loops := loops s; conns := conns s; accept_wg := accept_wg s; conn_wg := conn_wg s; next_id := next_id s; pc := PStop1;
                           cfg_plain := cfg_plain s; cfg_tls := cfg_tls s |}
     | _ => None
     end
@@ -122,31 +127,41 @@ Definition lstep (s : sys) (l : label) : option sys :=
     | PStop1 =>
       let gone := opt_list (fld_plain s) ++ opt_list (fld_tls s) in
       Some {| open_lis := filter (fun x => negb (mem_nat x gone)) (open_lis s); fld_plain := None; fld_tls := None; stopping := stopping s;
-              registry := registry s; loops := loops s; conns := conns s; accept_wg := accept_wg s; conn_wg := conn_wg s; next_id := next_id s; pc := PStop2;
+              registry := registry s; live := live s; loops := loops s; conns := conns s; accept_wg := accept_wg s; conn_wg := conn_wg s; next_id := next_id s; pc := PStop2;
               cfg_plain := cfg_plain s; cfg_tls := cfg_tls s |}
     | _ => None
     end
   | LStopWaitAccept =>
     match pc s, accept_wg s with
     | PStop2, O => Some {| open_lis := open_lis s; fld_plain := fld_plain s; fld_tls := fld_tls s; stopping := stopping s; registry := registry s;
-                           loops := loops s; conns := conns s; accept_wg := 0; conn_wg := conn_wg s; next_id := next_id s; pc := PStop3;
+                           live := live s; loops := loops s; conns := conns s; accept_wg := 0; conn_wg := conn_wg s; next_id := next_id s; pc := PStop3;
                            cfg_plain := cfg_plain s; cfg_tls := cfg_tls s |}
     | _, _ => None
     end
-  | LStopCloseConns =>
+  | LStopCloseReg =>
     match pc s with
     | PStop3 =>
-      (* ConnManager.Close (every registered connection is closed and dropped from the registry) and the sockets still
-         in liveConns: every socket of a connection goroutine that has not finished is closed *)
+      (* ConnManager.Close: a snapshot of the registry; every connection in it is closed and removed from the registry *)
       Some {| open_lis := open_lis s; fld_plain := fld_plain s; fld_tls := fld_tls s; stopping := stopping s; registry := [];
-              loops := loops s; conns := map close_conn (conns s);
+              live := live s; loops := loops s; conns := map (close_reg (registry s)) (conns s);
+              accept_wg := accept_wg s; conn_wg := conn_wg s; next_id := next_id s; pc := PStop3r; cfg_plain := cfg_plain s; cfg_tls := cfg_tls s |}
+    | _ => None
+    end
+  | LStopCloseConns =>
+    match pc s with
+    | PStop3r =>
+      (* then a snapshot of the tracked sockets (liveConns): every socket in it is closed - also that of a connection which
+         registered after the first snapshot; it removes itself from the registry when it finishes.  That this reaches every
+         goroutine that has not finished is the invariant i_live (a socket stays tracked until its goroutine returns) *)
+      Some {| open_lis := open_lis s; fld_plain := fld_plain s; fld_tls := fld_tls s; stopping := stopping s; registry := registry s;
+              live := live s; loops := loops s; conns := map (close_reg (live s)) (conns s);
               accept_wg := accept_wg s; conn_wg := conn_wg s; next_id := next_id s; pc := PStop4; cfg_plain := cfg_plain s; cfg_tls := cfg_tls s |}
     | _ => None
     end
   | LStopWaitConns =>
     match pc s, conn_wg s with
     | PStop4, O => Some {| open_lis := open_lis s; fld_plain := fld_plain s; fld_tls := fld_tls s; stopping := stopping s; registry := registry s;
-                           loops := loops s; conns := conns s; accept_wg := accept_wg s; conn_wg := 0; next_id := next_id s; pc := PStopped;
+                           live := live s; loops := loops s; conns := conns s; accept_wg := accept_wg s; conn_wg := 0; next_id := next_id s; pc := PStopped;
                            cfg_plain := cfg_plain s; cfg_tls := cfg_tls s |}
     | _, _ => None
     end
@@ -157,11 +172,11 @@ Definition lstep (s : sys) (l : label) : option sys :=
         let id := next_id s in
         if stopping s then      (* trackConn refuses: the socket is closed at once, no goroutine *)
           Some {| open_lis := open_lis s; fld_plain := fld_plain s; fld_tls := fld_tls s; stopping := stopping s; registry := registry s;
-                  loops := loops s; conns := conns s; accept_wg := accept_wg s; conn_wg := conn_wg s; next_id := S id; pc := pc s;
+                  live := live s; loops := loops s; conns := conns s; accept_wg := accept_wg s; conn_wg := conn_wg s; next_id := S id; pc := pc s;
                   cfg_plain := cfg_plain s; cfg_tls := cfg_tls s |}
         else
           Some {| open_lis := open_lis s; fld_plain := fld_plain s; fld_tls := fld_tls s; stopping := stopping s; registry := registry s;
-                  loops := loops s; conns := {| ct_id := id; ct_tls := al_tls a; ct_st := CTracked; ct_open := true |} :: conns s;
+                  live := id :: live s; loops := loops s; conns := {| ct_id := id; ct_tls := al_tls a; ct_st := CTracked; ct_open := true |} :: conns s;
                   accept_wg := accept_wg s; conn_wg := S (conn_wg s); next_id := S id; pc := pc s; cfg_plain := cfg_plain s; cfg_tls := cfg_tls s |}
       else None
     | None => None
@@ -171,7 +186,7 @@ Definition lstep (s : sys) (l : label) : option sys :=
     | Some a =>
       if mem_nat lis (open_lis s) then None      (* Accept only fails once the listener is closed *)
       else Some {| open_lis := open_lis s; fld_plain := fld_plain s; fld_tls := fld_tls s; stopping := stopping s; registry := registry s;
-                   loops := set_loop_done lis (loops s); conns := conns s; accept_wg := pred (accept_wg s); conn_wg := conn_wg s; next_id := next_id s;
+                   live := live s; loops := set_loop_done lis (loops s); conns := conns s; accept_wg := pred (accept_wg s); conn_wg := conn_wg s; next_id := next_id s;
                    pc := pc s; cfg_plain := cfg_plain s; cfg_tls := cfg_tls s |}
     | None => None
     end
@@ -181,7 +196,7 @@ Definition lstep (s : sys) (l : label) : option sys :=
       match ct_st c, ct_tls c with
       | CTracked, true =>
         Some {| open_lis := open_lis s; fld_plain := fld_plain s; fld_tls := fld_tls s; stopping := stopping s; registry := registry s;
-                loops := loops s; conns := set_conn id finish_conn (conns s); accept_wg := accept_wg s; conn_wg := pred (conn_wg s); next_id := next_id s;
+                live := remove_nat id (live s); loops := loops s; conns := set_conn id finish_conn (conns s); accept_wg := accept_wg s; conn_wg := pred (conn_wg s); next_id := next_id s;
                 pc := pc s; cfg_plain := cfg_plain s; cfg_tls := cfg_tls s |}
       | _, _ => None
       end
@@ -193,7 +208,7 @@ Definition lstep (s : sys) (l : label) : option sys :=
       match ct_st c with
       | CTracked =>
         Some {| open_lis := open_lis s; fld_plain := fld_plain s; fld_tls := fld_tls s; stopping := stopping s; registry := id :: registry s;
-                loops := loops s; conns := set_conn id register_conn (conns s); accept_wg := accept_wg s; conn_wg := conn_wg s; next_id := next_id s;
+                live := live s; loops := loops s; conns := set_conn id register_conn (conns s); accept_wg := accept_wg s; conn_wg := conn_wg s; next_id := next_id s;
                 pc := pc s; cfg_plain := cfg_plain s; cfg_tls := cfg_tls s |}
       | _ => None
       end
@@ -204,7 +219,7 @@ Definition lstep (s : sys) (l : label) : option sys :=
     | Some c =>
       match ct_st c with
       | CRegistered =>
-        Some {| open_lis := open_lis s; fld_plain := fld_plain s; fld_tls := fld_tls s; stopping := stopping s; registry := remove_nat id (registry s); loops := loops s; conns := set_conn id finish_conn (conns s); accept_wg := accept_wg s;
+        Some {| open_lis := open_lis s; fld_plain := fld_plain s; fld_tls := fld_tls s; stopping := stopping s; registry := remove_nat id (registry s); live := remove_nat id (live s); loops := loops s; conns := set_conn id finish_conn (conns s); accept_wg := accept_wg s;
                 conn_wg := pred (conn_wg s); next_id := next_id s; pc := pc s; cfg_plain := cfg_plain s; cfg_tls := cfg_tls s |}
       | _ => None
       end
